@@ -1,14 +1,15 @@
 import Qats.Lemmas.SNOps
 import Qats.Lemmas.SNReal
-import Qats.Lemmas.SNWeibull
 import Mathlib.Tactic.Ring
 import Mathlib.Tactic.NormNum
 import Mathlib.Tactic.FieldSimp
 import Mathlib.Tactic.Linarith
 import Mathlib.Tactic.Positivity
 /-!
-Main lemmas behind the C05 / C06 property theorems (statements fixed by `Qats/Props/C05.lean`, `C06.lean`).
-All over ℝ: `TranscOps.log10 = Real.logb 10`, `TranscOps.rpow x y = x ^ y`, `TranscOps.gamma = Real.Gamma`.
+Main lemmas behind the C05 property theorems and the `minersum` part of C06 (statements fixed by
+`Qats/Props/C05.lean`, `C06.lean`).  All over ℝ: `TranscOps.log10 = Real.logb 10`, `TranscOps.rpow x y = x ^ y`.
+Only the S-N curve formulas (`sn_loga2 … sn_tcorr_mask`) are used; the lemmas about the closed forms of
+`minersum_weibull` and about `gh_corrected` (C06 only) are in `SN06Main.lean` / `SNBilinear.lean`.
 
 Structure: `SNOps.lean` restates each generated formula in Mathlib notation (the only place that depends on the
 shape of the generated terms), `SNReal.lean` is the real analysis in log coordinates; here the branch skeleton of
@@ -189,7 +190,7 @@ theorem n_array' (c : Curve ℝ) (s : List ℝ) (t : Option ℝ) :
     simp only [Option.map_some, Option.bind_some]
     exact (mapM_some_eq (c.nWith tc) s).symm
 
-/-! ### C06 -/
+/-! ### C06: `minersum` (per-bin sum over the C05 formulas) -/
 
 theorem foldl_add_eq_sum (l : List ℝ) (a : ℝ) : l.foldl (· + ·) a = a + l.sum := by
   induction l generalizing a with
@@ -238,34 +239,5 @@ theorem minersum_linear' (c : Curve ℝ) (td scf k l : ℝ) (th : Option ℝ) (h
 theorem minersum_scf' (c : Curve ℝ) (td scf : ℝ) (th : Option ℝ) (h : List (ℝ × ℝ)) :
     minersum c td scf th h = minersum c td 1 th (h.map fun p => (p.1 * scf, p.2)) := by
   simp only [minersum_eq, List.map_map, Function.comp_def, mul_one]
-
-/-- Weibull density of the stress ranges, scale `q`, shape `h`. -/
-noncomputable def weibullPdf (q h s : ℝ) : ℝ := h / q * (s / q) ^ (h - 1) * Real.exp (-(s / q) ^ h)
-
-/-- Single-slope closed form = expected damage: `v0·td·∫₀^∞ f_W(s)/N(s) ds` with `N(s) = a1·s^(-m1)`. -/
-theorem weibull_single_closed_form' (a1 h m1 q td v0 : ℝ) (ha : 0 < a1) (hh : 0 < h) (hm : 0 < m1) (hq : 0 < q) :
-    v0 * td * ∫ s in Set.Ioi (0 : ℝ), weibullPdf q h s / (a1 * s ^ (-m1)) = sn_mw_single a1 h m1 q td v0 := by
-  simp only [weibullPdf]
-  rw [mw_single_eq, weibull_integral ha hh hm hq]
-  ring
-
-theorem gh_zero_mean' (r uts : ℝ) (hu : uts ≠ 0) : gh_corrected (0 : ℝ) r uts = r := by
-  rw [gh_eq, sub_zero, div_self hu, mul_one]
-
-set_option linter.unusedVariables false in
-theorem gh_formula' (m r uts : ℝ) (hu : uts - m ≠ 0) : gh_corrected m r uts = r * uts / (uts - m) := by
-  rw [gh_eq, mul_div_assoc]
-
-theorem gh_tensile_enlarges' (m r uts : ℝ) (hm : 0 < m) (hmu : m < uts) (hr : 0 < r) : r < gh_corrected m r uts := by
-  rw [gh_eq]
-  have hd : 0 < uts - m := sub_pos.2 hmu
-  have h1 : 1 < uts / (uts - m) := by rw [lt_div_iff₀ hd]; linarith
-  calc r = r * 1 := (mul_one r).symm
-    _ < r * (uts / (uts - m)) := mul_lt_mul_of_pos_left h1 hr
-
-set_option linter.unusedVariables false in
-theorem gh_unit_free' (k m r uts : ℝ) (hk : 0 < k) (hu : uts - m ≠ 0) :
-    gh_corrected (k * m) (k * r) (k * uts) = k * gh_corrected m r uts := by
-  rw [gh_eq, gh_eq, ← mul_sub, mul_div_mul_left _ _ hk.ne', mul_assoc]
 
 end Qats.SN
